@@ -137,19 +137,19 @@ def gen_stog(rng, P, variant="robust", decimal=False):
     if variant == "nonrobust":
         own = F(10) ** -12 * dmin
         i = rng.randrange(len(rects))
-        axis = rng.randrange(2)
-        sign = rng.choice([-1, 1])
         if rng.random() < 0.6:
-            j = rng.choice([-7, -5, -3, -2, -1, 1, 2, 3, 5, 7, 9])
+            j = rng.choice([-5, -3, -2, -2, -1, -1, 1, 1, 2, 2, 3, 5, 7])
             delta = pow2(math.floor(math.log2(own)) + j)          # a gap / shift inside the distance band
             note += "/dist"
         else:
             ln = max(min(r[2], r[3]) for r in rects)
             aown = F(math.sqrt(float(own)))
-            j = rng.choice([-4, -3, -2, -1, 1, 2, 3, 4])
+            j = rng.choice([-3, -2, -1, -1, 1, 1, 2, 3])
             delta = pow2(math.floor(math.log2(aown / ln)) + j)    # an overlap sliver inside the area band
             note += "/area"
-        rects[i][axis] += sign * delta
+        # both axes: whichever side the rectangle is attached by gets the gap / the overlap
+        rects[i][0] += rng.choice([-1, 1]) * delta
+        rects[i][1] += rng.choice([-1, 1]) * delta
     ok = all(exact(v) for r in rects for v in r) and all(
         exact(r[0] - r[2] / 2) and exact(r[0] + r[2] / 2) and exact(r[1] - r[3] / 2) and exact(r[1] + r[3] / 2)
         for r in rects)
@@ -190,13 +190,13 @@ def gen_alloc(rng, P, variant="robust"):
         axis = rng.randrange(2)
         sign = rng.choice([-1, 1])
         if rng.random() < 0.4:
-            j = rng.choice([-7, -5, -3, -2, -1, 1, 2, 3, 5, 7, 9])
+            j = rng.choice([-5, -3, -2, -1, 1, 2, 3, 5, 7])
             delta = pow2(math.floor(math.log2(own)) + j)
             note += "/dist"
         else:
             ln = max(min(c[0][2], c[0][3]) for c in cs)
             aown = F(math.sqrt(float(own)))
-            j = rng.choice([-4, -3, -2, -1, 1, 2, 3, 4])
+            j = rng.choice([-3, -2, -1, -1, 1, 1, 2, 3])
             delta = pow2(math.floor(math.log2(aown / ln)) + j)
             note += "/area"
         cs[i][0][axis] += sign * delta
@@ -247,13 +247,13 @@ def gen_die(rng, P, variant="robust", decimal=False):
         axis = rng.randrange(2)
         sign = rng.choice([-1, 1])
         if rng.random() < 0.5:
-            j = rng.choice([-9, -7, -5, -3, -2, -1, 1, 2, 3, 5])
+            j = rng.choice([-7, -5, -3, -2, -1, -1, 1, 1, 2, 3])
             delta = pow2(math.floor(math.log2(own)) + j)
             note += "/dist"
         else:
             ln = max(min(x[2], x[3]) for x in boxes)
             aown = F(math.sqrt(float(own)))
-            j = rng.choice([-5, -4, -3, -2, -1, 1, 2, 3])
+            j = rng.choice([-4, -3, -2, -1, -1, 1, 1, 2])
             delta = pow2(math.floor(math.log2(aown / ln)) + j)
             note += "/area"
         if rng.random() < 0.5:
@@ -319,6 +319,16 @@ def gen_simple_netlist(rng, P, decimal=False):
     nets = [[rng.choice(names), rng.choice(names)] for _ in range(rng.randrange(0, 3))]
     nets = [e for e in nets if e[0] != e[1]]
     return {"Modules": mods, "Nets": nets}, (min(small) if small else None), small
+
+
+def gen_terminals_only(rng):
+    """a netlist without any dimension: nothing from which a tolerance could be derived"""
+    mods = {f"T{i}": {"terminal": True, "center": [float(rng.randrange(0, 50)), float(rng.randrange(0, 50))]}
+            for i in range(rng.randrange(1, 4))}
+    names = list(mods)
+    nets = [names[:2]] if len(names) >= 2 else []
+    return {"op": {"k": "netlist", "doc": {"Modules": mods, "Nets": nets}}, "kind": "netlist", "stream": "logic",
+            "dims": None, "cand": [["N", None]], "note": "terminals-only"}
 
 
 def gen_netlist_hist(rng, P, decimal=False):
@@ -435,6 +445,8 @@ def gen_history_op(rng, probe, base):
     a power of two so that their dimensions stay within a factor 1000 of the probe's"""
     kind = rng.choice(["netlist", "netlist", "die", "die", "alloc", "alloc", "stog", "sat", "legal", "strop",
                        "defaults", "sat"])
+    if kind == "netlist" and rng.random() < 0.02:
+        return gen_terminals_only(rng)
     if kind == "sat":
         p, h = gen_sat(rng)
         return h if (h is not None and rng.random() < 0.5) else p
@@ -839,7 +851,8 @@ EPS_KINDS = ("stog", "alloc", "die", "netlist", "legal")
 
 
 def oracle(case, obs):
-    if any(e is not None and not all(math.isfinite(v) for v in e) for e in obs["trace"] + [obs.get("eps_after")]):
+    if any(e is not None and not all(math.isfinite(v) for v in e)
+           for e in obs["trace"] + [obs.get("eps_after"), obs.get("eps_own")]):
         return ("epsilon-infinite: an operation of the history installed an infinite tolerance "
                 f"(trace {obs['trace']}); every later design is judged with it")
     for side in ("alone", "after"):
